@@ -4,6 +4,9 @@
   reset                                           → ok            (empty server, no connections; switches kept)
   switches                                        → evalshaDb0=<0|1> scriptDbCmdsDb0=<0|1> execSelectNoop=<0|1>   (initially: read off Gen/Dispatch.lean)
   switches <name>=<0|1> …                         → ok
+  blockingcfg [<name>=<0|1> …]                    → deferExec=.. notifyOnce=.. noticeHangup=..  (from Gen/Blocking.lean; setting it resets the state)
+  timeout <conn>                                  → `.` or `<conn>:( na )`: the time-out of a blocked client fires
+  close <conn>                                    → ghost | gone: the client closes its socket (ghost: blocked and unnoticed, stays registered)
   luaquirks                                       → the conversion switches of Gen/Lua.lean (`Gen.luaQuirksSeen`) the script replies are converted with
   req <conn> <now> <obs> plain <arg-hex>…         → <reply> # <served> # <accesses> # <spec reply> # <spec served> # same|differ # <sel>
   req <conn> <now> _ script <0|1> <cmd>/<cmd>…    → (same)       cmd = arg-hex joined by `,`; 1 = EVALSHA, 0 = EVAL
@@ -22,6 +25,7 @@ import FerrousSpec.Drv.Keyspace
 import FerrousSpec.Proofs.DbsCode
 import FerrousSpec.Model.Lua
 import FerrousSpec.Gen.Lua
+import FerrousSpec.Gen.Blocking
 namespace Ferrous.Drv.Dbs
 open Ferrous Ferrous.Drv Ferrous.KS Ferrous.Dbs
 
@@ -86,11 +90,33 @@ def setSwitch (w : Switches) (kv : String) : Option Switches :=
 
 def b01 (b : Bool) : String := if b then "1" else "0"
 
+/-- configuration of the wake-up machinery as C13's translator reads it off the source (Gen/Blocking.lean): it decides WHEN a
+    blocked client is served, never on which database; the driver follows the tree so that C13's repairs do not break C18 -/
+structure BCfg where
+  deferExec : Bool := Gen.Blocking.execAtomic || !Gen.Blocking.wakeAtPush
+  notifyOnce : Bool := !Gen.Blocking.notifyPerElement
+  noticeHangup : Bool := Gen.Blocking.noticeBlockedHangup
+
+def freshState (b : BCfg) : State :=
+  { cfgDeferExecWakes := b.deferExec, cfgNotifyOnce := b.notifyOnce, cfgNoticeHangup := b.noticeHangup }
+
 structure St where
   w : Switches := codeSwitches
   q : Quirks := {}
-  s : State := {}
+  b : BCfg := {}
+  s : State := freshState {}
   seen : List Nat := []
+
+def setCfg (b : BCfg) (kv : String) : Option BCfg :=
+  match kv.splitOn "=" with
+  | [k, v] =>
+    if v != "0" && v != "1" then none else
+    let x := v == "1"
+    if k == "deferExec" then some { b with deferExec := x }
+    else if k == "notifyOnce" then some { b with notifyOnce := x }
+    else if k == "noticeHangup" then some { b with noticeHangup := x }
+    else none
+  | _ => none
 
 def sameOn (seen : List Nat) (a b : State) : Bool :=
   a.store == b.store && a.waiting == b.waiting && a.wakes == b.wakes &&
@@ -112,7 +138,21 @@ def doReq (st : St) (c now : Nat) (r : Req) : St × String :=
 
 def step (st : St) (ws : List String) : St × String :=
   match ws with
-  | ["reset"] => ({ st with s := {}, seen := [] }, "ok")
+  | ["reset"] => ({ st with s := freshState st.b, seen := [] }, "ok")
+  | ["blockingcfg"] =>
+    (st, s!"deferExec={b01 st.b.deferExec} notifyOnce={b01 st.b.notifyOnce} noticeHangup={b01 st.b.noticeHangup}")
+  | "blockingcfg" :: kvs =>
+    match kvs.foldlM setCfg st.b with
+    | some b => ({ st with b := b, s := freshState b, seen := [] }, "ok")
+    | none => (st, "bad-op")
+  | ["timeout", c] =>
+    match c.toNat? with
+    | some c => let r := timeoutConn st.s c; ({ st with s := r.1 }, showServed r.2)
+    | none => (st, "bad-op")
+  | ["close", c] =>
+    match c.toNat? with
+    | some c => ({ st with s := closeConn st.s c }, if (st.s.conns c).blocked && !st.s.cfgNoticeHangup then "ghost" else "gone")
+    | none => (st, "bad-op")
   | ["switches"] =>
     (st, s!"evalshaDb0={b01 st.w.evalshaDb0} scriptDbCmdsDb0={b01 st.w.scriptDbCmdsDb0} execSelectNoop={b01 st.w.execSelectNoop}")
   | ["luaquirks"] =>
